@@ -337,8 +337,9 @@ class _Collector:
 
 
 class Checker:
-    def __init__(self, run, world: World, pfx="C15"):
-        self.run, self.world, self.pfx = run, world, pfx
+    def __init__(self, run, world: World, pfx="C15", report_raises=True):
+        self.run, self.world, self.pfx, self.report_raises = run, world, pfx, report_raises
+        self.n_raises = 0
         self.minimising = isinstance(run, _Collector)
         self.cases = []          # (expr, impl_render, n_warn_impl, info) for the correspondence
         self.hist = {"templates": {}, "faults": {}, "fault_kinds": {}, "outcomes": {}, "backends": {}, "steps_per_program": {},
@@ -357,17 +358,21 @@ class Checker:
     # -- failures ------------------------------------------------------------------------------------
     def reproduces(self, prog, backend, plan, key, strict):
         col = _Collector(self.run.rng)
-        ck = Checker(col, self.world, self.pfx)
+        ck = Checker(col, self.world, self.pfx, self.report_raises)
         try:
             if backend == "NONE":
                 ck.check_none_run(prog, run_program(self.world, prog, "NONE", typing=False))
             else:
                 base = run_program(self.world, prog, backend)
-                fr = run_program(self.world, prog, backend, plan, reuse=base, strict=strict)
-                for p in sorted(fr["executed"]):
-                    ck.check_step(prog, fr, p)
-                if not strict:
-                    ck.check_downstream(prog, base, fr)
+                if not plan:
+                    for p in sorted(base["executed"]):
+                        ck.check_step(prog, base, p)
+                else:
+                    fr = run_program(self.world, prog, backend, plan, reuse=base, strict=strict)
+                    for p in sorted(fr["executed"]):
+                        ck.check_step(prog, fr, p)
+                    if not strict:
+                        ck.check_downstream(prog, base, fr)
         except Exception:  # noqa: BLE001
             return False
         return any(f.key == key and f.kind == "impl" for f in col.failures)
@@ -411,7 +416,7 @@ class Checker:
             elif r["calls"]:
                 self.run.fail("corr", self.pfx + "/backend-called-under-NONE", "an evaluator was invoked although the backend is NONE",
                               {"template": r["t"]})
-            elif r["node"].op_type.identifier not in ("Constant", "Initializer") and any(
+            elif r["node"].op_type.identifier not in ("Constant", "Initializer", "Introduce") and any(
                     v._value is not None for v in r["node"].outputs.get_vars().values()):
                 self.run.fail("corr", self.pfx + "/value-under-NONE", "an operator output carries a value although the backend is NONE",
                               {"template": r["t"]})
@@ -429,7 +434,10 @@ class Checker:
         case_id = (id(prog), backend, p, lab, strict)
         plan = run_["plan"]
         # 1. constructor must not raise (strict mode raises by design and is only compared with the model)
-        if r["exc"] is not None and not strict:
+        if (r["exc"] is not None or r["none_exc"] is not None) and not self.report_raises:
+            self.n_raises += 1          # C07: a construction that raises produces no Var; that is C15's business
+            self.impl_failed_cases.add(case_id)
+        elif r["exc"] is not None and not strict:
             cls = classify_exc(r["exc"])
             mech = MECHANISM.get(cls)
             if mech is None:
@@ -442,7 +450,7 @@ class Checker:
                            f"constructing {r['t']} raises {type(r['exc']).__name__} although only the value-propagation "
                            f"backend misbehaved ({lab}; backend {backend})", prog, backend, plan, p,
                            {"exception": f"{type(r['exc']).__name__}: {str(r['exc'])[:200]}", "fault": fault})
-        if r["none_exc"] is not None:
+        if r["none_exc"] is not None and self.report_raises:
             cls = classify_exc(r["none_exc"])
             self.impl_fail(f"{self.pfx}/constructor-raises/{MECHANISM.get(cls, cls)}",
                            f"constructing {r['t']} with value propagation switched off (backend NONE) raises "
@@ -616,8 +624,8 @@ def fault_applicable(f, rec):
 def run(run: Run) -> int:
     run.check_theorems(PROPS, CONE, thorough_coqchk=(run.tier == "thorough"))
     quick = run.tier == "quick"
-    n_prog = 14 if quick else 120
-    faults_per_prog = 26 if quick else 60
+    n_prog = 40 if quick else 300
+    faults_per_prog = 40 if quick else 80
     rng = run.rng
     world = World()
     ck = Checker(run, world)
